@@ -2,6 +2,7 @@ package verifsim
 
 import (
 	"fmt"
+	"sort"
 	"strings"
 	"time"
 
@@ -496,6 +497,20 @@ func scnC16L2(rc *RunCtx) {
 	}
 	probeAt := t2 + 3000
 	auditTL = append(auditTL, TLItem{AtMs: probeAt, Kind: "event", S: 0, E: 2}, TLItem{AtMs: probeAt, Kind: "event", S: 1, E: 1})
+	// unrelated logins (other sshd processes whose sessions never show up) keep arriving
+	// while the halves are pending: the cleanup must not depend on the processor being idle
+	decoyEvery := []int{0, 0, 20, 45}[t.Choose(4, "decoy.every")]
+	if decoyEvery > 0 {
+		for at, i := decoyEvery*1000/2, 0; at < probeAt; at, i = at+decoyEvery*1000, i+1 {
+			ds := &Session{Ses: fmt.Sprint(5000 + i), PID: 30000 + i, UID: 1500, Kind: "login-only"}
+			ds.Login = GenLogin(t, ds.PID, 100+i)
+			w.Sessions = append(w.Sessions, ds)
+			sshdTL = append(sshdTL, TLItem{AtMs: at, Kind: "login", S: len(w.Sessions) - 1})
+		}
+		// keep the sshd timeline ordered by time
+		sort.SliceStable(sshdTL, func(i, j int) bool { return sshdTL[i].AtMs < sshdTL[j].AtMs })
+		rc.Sim.Count("c16.decoy_logins")
+	}
 	p := newPipeline(rc, 2, h, sshdTL, auditTL)
 	rc.Sim.Policy = simrt.PolicyRunToBlock // durations are judged: fair schedule, clock advances at quiescence only
 	if err := p.Start(); err != nil {
@@ -504,9 +519,9 @@ func scnC16L2(rc *RunCtx) {
 	}
 	end := time.Duration(probeAt+4000) * time.Millisecond
 	ok := p.Run(nil, end, 500*time.Millisecond, 400000)
-	rc.CaseKey(t0, gapS, loginFirst, s.Ses, pid)
+	rc.CaseKey(t0, gapS, loginFirst, s.Ses, pid, decoyEvery)
 	rc.R.NonTrivial = gapS >= 1
-	rc.R.Sample = map[string]any{"first_half_at_s": t0 / 1000, "gap_s": gapS, "login_first": loginFirst, "band": []string{"<60s", "<60s", "60-120s (not judged)", ">120s", ">120s"}[band], "written": len(p.Out)}
+	rc.R.Sample = map[string]any{"first_half_at_s": t0 / 1000, "gap_s": gapS, "login_first": loginFirst, "band": []string{"<60s", "<60s", "60-120s (not judged)", ">120s", ">120s"}[band], "written": len(p.Out), "unrelated_login_every_s": decoyEvery}
 	rc.Sim.Count(fmt.Sprintf("clock.gap.band%d", band))
 	if !ok {
 		rc.Abort("step budget exhausted: %v", rc.Sim.Live())
